@@ -321,6 +321,60 @@ def foreign_records(case):
     return rec
 
 
+def observe_wedge(case):
+    """configuration across programs: RDKit's record (2D layout + wedges) read by chython, chython's record read by RDKit"""
+    import io
+    from chython import smiles, mdl_mol
+    from chython.files import SDFWrite, ESDFWrite
+    from rdkit import Chem, RDLogger
+    from rdkit.Chem import AllChem
+    from checks.c01 import full_projection, allene_or_other_stereo
+    RDLogger.DisableLog('rdApp.*')
+    s = case['smi']
+    try:
+        ref = smiles(s)
+        ref.kekule()
+        ref.thiele()
+        rd = Chem.MolFromSmiles(s)
+        if rd is None or allene_or_other_stereo(ref) or any(a._stereo is not None and a.atomic_number != 6 for a in ref._atoms.values()):
+            return {'skip': 'outside'}
+        if any(a.GetChiralTag() != Chem.ChiralType.CHI_UNSPECIFIED and a.GetAtomicNum() != 6 for a in rd.GetAtoms()):
+            return {'skip': 'outside'}
+        AllChem.Compute2DCoords(rd)
+        dom = full_projection(ref, rings=True)[0]
+    except Exception as e:
+        return {'skip': type(e).__name__}
+    rec = {'fmt': case['fmt'], 'exc': '', 'dom': dom, 'smi': s}
+    for k in ('cs', 'cs0', 'cr', 'cr0', 'rs', 'rs0', 'rr', 'rr0'):
+        rec[k] = ''
+    try:
+        kek = Chem.Mol(rd)
+        if case['fmt'].endswith('kekule'):
+            Chem.Kekulize(kek, clearAromaticFlags=True)
+        block = Chem.MolToV3KMolBlock(kek) if case['fmt'].startswith('v3000') else Chem.MolToMolBlock(kek)
+        b = mdl_mol(block, calc_cis_trans=True)
+        n = b.copy()
+        n.kekule()
+        n.thiele()
+        rec['cs'], rec['cs0'] = str(n), format(n, '!s')
+        rec['cr'], rec['cr0'] = str(ref), format(ref, '!s')
+        out = io.StringIO()
+        with (ESDFWrite if case['fmt'].startswith('v3000') else SDFWrite)(out) as w:
+            w.write(b)
+        r2 = Chem.MolFromMolBlock(out.getvalue().split('$$$$')[0])
+        if r2 is None:
+            rec['exc'] = 'rdkit-rejects-the-written-record'
+            return rec
+        for a in r2.GetAtoms():
+            a.SetAtomMapNum(0)
+        rec['rs'], rec['rs0'] = Chem.MolToSmiles(r2), Chem.MolToSmiles(r2, isomericSmiles=False)
+        r0 = Chem.MolFromSmiles(s)
+        rec['rr'], rec['rr0'] = Chem.MolToSmiles(r0), Chem.MolToSmiles(r0, isomericSmiles=False)
+    except Exception as e:
+        rec['exc'] = type(e).__name__
+    return rec
+
+
 def repo_files(case):
     """the repository's own test files (written by other programs) must be read without a foreign exception"""
     from chython.files import SDFRead, RDFRead, MRVRead
@@ -399,6 +453,20 @@ def run(ck):
         res = vlib.pmap('checks.c11', 'foreign_records', fc)
         keep = [(c, r) for c, r in zip(fc, res) if 'skip' not in r]
         ck.validate('other-programs', 'Trace_C11', [c for c, _ in keep], [r for _, r in keep])
+    # configuration across programs (wedges and 2D geometry), both directions
+    stereo = [s for s in corp if '@' in s or '/' in s]
+    wsel = chy.pick(stereo, 60 if ck.quick else 1200, ck.seed, 4) + ['C[C@H](N)C(=O)O', 'F/C=C/Cl', 'F/C=C\\Cl', 'N[C@@H](Cc1ccccc1)C(=O)O', 'C/C=C\\[C@@H](C)O', 'C[C@]1(F)CCCO1', 'C[C@@](F)(Cl)Br',
+                                                                        'O[C@H]1CC[C@@H](Cl)CC1'.replace('Cl', 'F'), 'C[C@H](O)[C@@H](N)C', 'CC1(C)[C@@H]2CC[C@@]1(C)C(=O)C2', 'C/C(F)=C(/Cl)Br', 'O/N=C/c1ccccc1']
+    wc = ck.select('configuration-across-programs', [{'key': f'wedge:{fmt}:{s}', 'smi': s, 'fmt': fmt} for s in wsel for fmt in ('v2000-aromatic', 'v3000-kekule', 'v2000-kekule')])
+    if wc:
+        res = vlib.pmap('checks.c11', 'observe_wedge', wc)
+        for r in res:
+            if '_observer_error' in r:
+                raise vlib.Machinery(r['_observer_error'] + r['_tb'])
+        keep = [(c, r) for c, r in zip(wc, res) if 'skip' not in r]
+        ck.ood('configuration-across-programs: skipped (allene / non-carbon stereocentre / unreadable)', len(wc) - len(keep))
+        out = ck.validate('configuration-across-programs', 'Trace_Wedge', [c for c, _ in keep], [r for _, r in keep])
+        ck.ood('configuration-across-programs: outside the symmetry domain', out['out'].count('"ood"'))
     if ck.want('repository-files') and not ck.replay:
         recs = repo_files({})
         ck.validate('repository-files', 'Trace_C11', [{'key': r['fmt']} for r in recs], recs)
